@@ -409,7 +409,8 @@ Definition ViewOK (s : lb) : Prop := 0 <= off s /\ 0 <= inum s < iden s.
 
 Lemma shift_focus_writes : forall s maxrow oi s',
   shift_focus s maxrow oi = Ok s' ->
-  ViewOK s' /\ items s' = items s /\ focus s' = focus s /\ pend s' = pend s /\ off s' < Z.max 1 maxrow.
+  ViewOK s' /\ items s' = items s /\ focus s' = focus s /\ pend s' = pend s /\ off s' < Z.max 1 maxrow /\
+  vpend s' = vpend s.
 Proof.
   intros s maxrow oi s'. unfold shift_focus.
   destruct (0 <=? oi) eqn:E1.
@@ -418,16 +419,25 @@ Proof.
     unfold ViewOK. cbn. splits; try reflexivity; lia.
 Qed.
 
+Lemma change_focus_sr_writes : forall s maxrow position oi cf sr s',
+  change_focus_sr s maxrow position oi cf sr = Ok s' ->
+  ViewOK s' /\ items s' = items s /\ focus s' = position /\ pend s' = pend s /\
+  (exists w, nthz (items s) position = Some w) /\ vpend s' = vpend s.
+Proof.
+  intros s maxrow position oi cf sr s'. unfold change_focus_sr.
+  destruct (nthz (items s) position) as [w|] eqn:Ew; [|discriminate].
+  remember (snap_sr sr maxrow (i_rows w) oi (i_sel w) cf) as oi' eqn:Hs. clear Hs.
+  destruct (0 <=? oi') eqn:E1.
+  - intros [= <-]. unfold ViewOK. cbn. splits; try reflexivity; try lia. now exists w.
+  - destruct (oi' + i_rows w <=? 0) eqn:E2; [discriminate|]. intros [= <-].
+    unfold ViewOK. cbn. splits; try reflexivity; try lia. now exists w.
+Qed.
+
 Lemma change_focus_writes : forall s maxrow position oi cf s',
   change_focus s maxrow position oi cf = Ok s' ->
   ViewOK s' /\ items s' = items s /\ focus s' = position /\ pend s' = pend s /\
   exists w, nthz (items s) position = Some w.
 Proof.
-  intros s maxrow position oi cf s'. unfold change_focus.
-  destruct (nthz (items s) position) as [w|] eqn:Ew; [|discriminate].
-  remember (snap maxrow (i_rows w) oi (i_sel w) cf) as oi' eqn:Hs. clear Hs.
-  destruct (0 <=? oi') eqn:E1.
-  - intros [= <-]. unfold ViewOK. cbn. splits; try reflexivity; try lia. now exists w.
-  - destruct (oi' + i_rows w <=? 0) eqn:E2; [discriminate|]. intros [= <-].
-    unfold ViewOK. cbn. splits; try reflexivity; try lia. now exists w.
+  intros s maxrow position oi cf s' H. unfold change_focus in H.
+  destruct (change_focus_sr_writes _ _ _ _ _ _ _ H) as (A & B & C & D & E & _). splits; assumption.
 Qed.
